@@ -178,63 +178,27 @@ func runC14(c *an.Ctx) {
 	lookaheadRule(c, "R3", []string{"internal/transformations", "internal/strings"}, 40)
 
 	// ---- R5 multiMatch executor
-	for _, name := range []string{"internal/corazawaf.(*Rule).executeTransformationsMultimatch", "internal/corazawaf.(*Rule).executeTransformations"} {
+	for _, name := range []string{"internal/corazawaf.(*Rule).executeTransformationsMultimatch", "internal/corazawaf.(*Rule).executeTransformations", "internal/corazawaf.(*Rule).transformArg"} {
 		fn := c.Fn("R5", name)
 		if fn == nil {
 			continue
 		}
 		multi := strings.HasSuffix(name, "Multimatch")
-		// the loop-carried running value
-		var run *ssa.Phi
-		an.Instrs(fn, func(in ssa.Instruction) {
-			if phi, ok := in.(*ssa.Phi); ok && phi.Comment == "value" && run == nil && an.InnermostLoop(phi.Block()) != nil && an.InnermostLoop(phi.Block()).Header == phi.Block() {
-				run = phi
-			}
-		})
+		// the loop-carried running value: the loop-header phi that is handed to the transformation function
+		run := runningValuePhi(fn)
 		if run == nil {
-			c.Unknown("R5", shortFn(name)+": running value", fn.Pos(), "loop-carried value not found")
+			c.Unknown("R5", shortFn(name)+": running value", fn.Pos(), "loop-carried value handed to transformations[i].Function not found")
 			continue
 		}
 		// every back-edge value: either the running value itself or the call result, the latter only from
 		// blocks where err == nil (and changed == true for multiMatch)
 		okAll := true
 		why := ""
-		var visit func(v ssa.Value, from *ssa.BasicBlock, d int)
-		seen := map[ssa.Value]bool{}
-		visit = func(v ssa.Value, from *ssa.BasicBlock, d int) {
-			if d > 6 || v == ssa.Value(run) {
-				return
-			}
-			if phi, ok := v.(*ssa.Phi); ok {
-				if seen[phi] {
-					return
-				}
-				seen[phi] = true
-				for i, e := range phi.Edges {
-					visit(e, phi.Block().Preds[i], d+1)
-				}
-				return
-			}
-			if _, isParam := v.(*ssa.Parameter); isParam {
-				return
-			}
-			e := tempName.ReplaceAllString(an.Expr(v), "")
-			if !strings.HasSuffix(e, ".Function(*value)#0") {
-				okAll, why = false, "the running value is replaced by "+e
-				return
-			}
-			f := an.FactsAtBlock(from)
-			base := strings.TrimSuffix(an.Expr(v), "#0")
-			if !f.Has(base+"#2", "==", "nil") {
-				okAll, why = false, "the running value is replaced by a transformation's output although it failed (no err == nil guard): a failing step like hexDecode returns \"\" and every later step works on the empty string"
-			}
-			if multi && !f.Has(base+"#1", "==", "true") {
-				okAll, why = false, "with multiMatch the running value is replaced without the step having reported a change: the collected values and the running value diverge"
-			}
-		}
 		for i, e := range run.Edges {
 			if run.Block().Preds[i] == run.Block() || run.Block().Dominates(run.Block().Preds[i]) {
-				visit(e, run.Block().Preds[i], 0)
+				if ok, w := runningValueDiscipline(e, run.Block().Preds[i], run, multi); !ok {
+					okAll, why = false, w
+				}
 			}
 		}
 		c.Check(okAll, "R5", shortFn(name)+": running value only replaced by a successful"+map[bool]string{true: ", changed", false: ""}[multi]+" step", run.Pos(), "guards on every update", why)
@@ -422,4 +386,106 @@ func deleteOnly(v ssa.Value) bool {
 		return an.Expr(call.Call.Args[2]) == `""`
 	}
 	return false
+}
+
+// isTransformationCall: a call through the Function field of a transformation entry (r.transformations[i].Function(x)).
+func isTransformationCall(in ssa.Instruction) (*ssa.Call, bool) {
+	call, ok := in.(*ssa.Call)
+	if !ok || call.Call.IsInvoke() || call.Call.StaticCallee() != nil || len(call.Call.Args) != 1 {
+		return nil, false
+	}
+	// a dynamic call of a value of the transformation type func(string) (string, bool, error)
+	sig, ok := call.Call.Value.Type().Underlying().(*types.Signature)
+	if !ok || sig.Params().Len() != 1 || sig.Results().Len() != 3 {
+		return nil, false
+	}
+	isStr := func(t types.Type) bool { b, ok := t.Underlying().(*types.Basic); return ok && b.Kind() == types.String }
+	if !isStr(sig.Params().At(0).Type()) || !isStr(sig.Results().At(0).Type()) || !isBoolType(sig.Results().At(1).Type()) || sig.Results().At(2).Type().String() != "error" {
+		return nil, false
+	}
+	return call, true
+}
+
+// runningValuePhi: the loop-header phi whose value is the argument of the transformation call in that loop.
+func runningValuePhi(fn *ssa.Function) *ssa.Phi {
+	var run *ssa.Phi
+	an.Instrs(fn, func(in ssa.Instruction) {
+		call, ok := isTransformationCall(in)
+		if !ok || run != nil {
+			return
+		}
+		lp := an.InnermostLoop(call.Block())
+		if lp == nil {
+			return
+		}
+		// the argument, through trivial phis, down to a phi at the loop header
+		var find func(v ssa.Value, d int) *ssa.Phi
+		find = func(v ssa.Value, d int) *ssa.Phi {
+			phi, ok := v.(*ssa.Phi)
+			if !ok || d > 4 {
+				return nil
+			}
+			if phi.Block() == lp.Header {
+				return phi
+			}
+			for _, e := range phi.Edges {
+				if r := find(e, d+1); r != nil {
+					return r
+				}
+			}
+			return nil
+		}
+		run = find(call.Call.Args[0], 0)
+	})
+	return run
+}
+
+// runningValueDiscipline: v (as seen when control comes from block `from`) is the running value itself or
+// the output of a transformation step that succeeded (err == nil on the path; changed == true when multi).
+func runningValueDiscipline(v ssa.Value, from *ssa.BasicBlock, run *ssa.Phi, multi bool) (bool, string) {
+	okAll, why := true, ""
+	seen := map[ssa.Value]bool{}
+	var visit func(v ssa.Value, from *ssa.BasicBlock, d int)
+	visit = func(v ssa.Value, from *ssa.BasicBlock, d int) {
+		if d > 6 || v == ssa.Value(run) {
+			return
+		}
+		if phi, ok := v.(*ssa.Phi); ok {
+			if seen[phi] {
+				return
+			}
+			seen[phi] = true
+			for i, e := range phi.Edges {
+				visit(e, phi.Block().Preds[i], d+1)
+			}
+			return
+		}
+		if _, isParam := v.(*ssa.Parameter); isParam {
+			return
+		}
+		e := tempName.ReplaceAllString(an.Expr(v), "")
+		ex, isEx := v.(*ssa.Extract)
+		var call *ssa.Call
+		if isEx && ex.Index == 0 {
+			if cl, ok := ex.Tuple.(*ssa.Call); ok {
+				if _, isT := isTransformationCall(cl); isT {
+					call = cl
+				}
+			}
+		}
+		if call == nil {
+			okAll, why = false, "the running value is replaced by "+e
+			return
+		}
+		f := an.FactsAtBlock(from)
+		base := strings.TrimSuffix(an.Expr(v), "#0")
+		if !f.Has(base+"#2", "==", "nil") {
+			okAll, why = false, "the value is a transformation's output although the step may have failed (no err == nil guard): a failing step like hexDecode returns \"\" and every later step, the operator and the cache work on the empty string"
+		}
+		if multi && !f.Has(base+"#1", "==", "true") {
+			okAll, why = false, "with multiMatch the running value is replaced without the step having reported a change: the collected values and the running value diverge"
+		}
+	}
+	visit(v, from, 0)
+	return okAll, why
 }
